@@ -216,6 +216,18 @@ def wbuildStep (s : DState) : List String → Option (DState × String)
           | none => some (s', s!"g{n} unresolvable")
       | _, _ => some (s, "bad-op")
     | _, _, _ => some (s, "bad-op")
+  | ["wabandon", c, evs] =>
+    -- a builder that only borrows the cache (`with_cache`) is fed a prefix of a tree and dropped without `finish`: the cache
+    -- keeps what it learnt, nothing of the builder's own state may outlive it
+    match parseRef 'c' c, (evs.splitOn ",").mapM compactEv with
+    | some slot, some evl =>
+      match s.caches[slot]?, s.builder with
+      | some (some cache), none =>
+        match (Builder.new cache).run s.cfg evl with
+        | .error _ => some (s, "panic")
+        | .ok b => some ({ s with caches := s.caches.set! slot (some b.cache) }, "ok")
+      | _, _ => some (s, "bad-op")
+    | _, _ => some (s, "bad-op")
   | _ => none
 
 end Cst.Drv
